@@ -1608,6 +1608,200 @@ def matrix_oracle(case):
     return None
 
 
+def same_object(a, b):
+    """two returned objects are the same data: type, index (labels, names), columns, values (NaN = NaN)"""
+    if isinstance(a, (pd.Series, pd.DataFrame)) or isinstance(b, (pd.Series, pd.DataFrame)):
+        if type(a) is not type(b):
+            return f"type {type(a).__name__} / {type(b).__name__}"
+        if list(a.index.names) != list(b.index.names) or len(a) != len(b) or \
+                not all(x == y or (is_nan_label(x) and is_nan_label(y)) for ta, tb in zip(map(astuple, a.index), map(astuple, b.index))
+                        for x, y in zip(ta, tb)):
+            return f"index {list(a.index)[:3]} / {list(b.index)[:3]}"
+        if isinstance(a, pd.DataFrame) and (list(a.columns) != list(b.columns)):
+            return f"columns {list(a.columns)[:4]} / {list(b.columns)[:4]}"
+        return None if same_data(a, b) else f"values {np.asarray(a).ravel()[:4].tolist()} / {np.asarray(b).ravel()[:4].tolist()}"
+    x, y = np.asarray(a), np.asarray(b)
+    if x.shape != y.shape:
+        return f"shape {x.shape} / {y.shape}"
+    return None if same_data(x, y) else f"values {x.ravel()[:4].tolist()} / {y.ravel()[:4].tolist()}"
+
+
+KEPT_WHAT = ("broadcaster-series", "broadcaster-series-named", "broadcaster-frame", "woehler-series", "woehler-frame",
+             "meanstress-collective", "haigh-diagram")
+
+
+def kept_case(rng):
+    return {"kind": "kept", "what": rng.choice(KEPT_WHAT), "steps": rng.randint(4, 9), "seed": rng.randrange(1 << 30)}
+
+
+def kept_oracle(case):
+    """ONE Broadcaster / signal / accessor object kept across calls: broadcast (or calculate) against a sequence of different
+    parameters, the underlying Series / DataFrame changed IN PLACE in between (a value or a column overwritten, a key / row
+    added): every answer of the kept object equals the answer of a FRESH object on the data as it is at that moment."""
+    import random
+    from pylife.core.broadcaster import Broadcaster
+    import pylife.materiallaws  # noqa: F401
+    import pylife.strength.meanstress  # noqa: F401
+    import pylife.stress.collective  # noqa: F401
+    from pylife.materiallaws.woehlercurve import WoehlerCurve
+    from pylife.strength.meanstress import HaighDiagram, MeanstressTransformCollective
+    r = random.Random(case["seed"])
+    what = case["what"]
+    log = []
+
+    def differ(kept, fresh, step):
+        kept = kept if isinstance(kept, tuple) else (kept,)
+        fresh = fresh if isinstance(fresh, tuple) else (fresh,)
+        for i, (k, f) in enumerate(zip(kept, fresh)):
+            d = same_object(k, f)
+            if d:
+                return (f"kept {what} object, step {len(log)} ({step}; history: {', '.join(log[-6:])}): the kept object's answer differs from a "
+                        f"fresh object's on the data as it is now: returned object {i}: {d}", "kept-object-stale")
+        return None
+
+    def run(fk, ff, step):
+        """fk / ff: the call on the kept / on a fresh object; both may raise - then both must"""
+        ek = ef = None
+        try:
+            with warnings.catch_warnings():
+                warnings.simplefilter("ignore")
+                k = fk()
+        except Exception as e:
+            ek = e
+        try:
+            with warnings.catch_warnings():
+                warnings.simplefilter("ignore")
+                f = ff()
+        except Exception as e:
+            ef = e
+        log.append(step)
+        if (ek is None) != (ef is None) or (ek is not None and type(ek) is not type(ef)):
+            return (f"kept {what} object, step {len(log)} ({step}; history: {', '.join(log[-6:])}): kept object "
+                    f"{'raised ' + type(ek).__name__ + ': ' + str(ek)[:80] if ek else 'returned'}, a fresh object "
+                    f"{'raised ' + type(ef).__name__ + ': ' + str(ef)[:80] if ef else 'returned'}", "kept-object-stale")
+        return None if ek is not None else differ(k, f, step)
+
+    if what.startswith("broadcaster"):
+        if what == "broadcaster-frame":
+            n = r.randint(2, 4)
+            obj = pd.DataFrame({"c0": [1.5 + i for i in range(n)], "c1": [10.25 + i for i in range(n)]},
+                               index=pd.Index([f"e{i}" for i in range(n)], name="element"))
+        else:
+            obj = pd.Series({"k_1": 7.0, "ND": 2e6, "SD": 300.0, "TN": 3.5})
+            if what == "broadcaster-series-named":
+                obj.index.name = "field"
+        B = Broadcaster(obj)
+        for step_no in range(case["steps"]):
+            u = r.random()
+            if step_no < 3:    # every case starts: array parameter, in-place change, array parameter
+                u = (0.9, 0.1, 0.9)[step_no]
+            if u < 0.35:       # change the data in place
+                if isinstance(obj, pd.Series):
+                    if r.random() < 0.75:
+                        lab = r.choice(list(obj.index))
+                        obj[lab] = float(r.choice([250.0, 5.0, 1e5, 0.125]))
+                        log.append(f"series[{lab!r}] = …")
+                    else:
+                        obj[f"new{len(obj)}"] = float(r.choice([1.0, 2.0]))
+                        log.append("series[new key] = …")
+                else:
+                    v = r.random()
+                    if v < 0.4:
+                        obj["c1"] = [float(r.choice([1.0, 2.0, 3.0])) * (i + 1) for i in range(len(obj))]
+                        log.append("frame['c1'] = …")
+                    elif v < 0.8:
+                        obj.iloc[r.randrange(len(obj)), 0] = 99.5
+                        log.append("frame.iloc[i, 0] = …")
+                    else:
+                        obj.loc[f"e{len(obj) + 5}"] = [7.5, 8.5]
+                        log.append("frame.loc[new row] = …")
+                continue
+            m = len(obj) if (isinstance(obj, pd.DataFrame) and r.random() < 0.7) else r.randint(1, 4)
+            prm = (r.choice if step_no >= 3 else (lambda alts: alts[1 + step_no // 2]))([
+                lambda: 2.5, lambda: [float(i) + 0.5 for i in range(m)], lambda: np.arange(m, dtype=float) * 1.5, lambda: np.asarray([4.0]),
+                lambda: pd.Series([5.0, 6.0], index=pd.Index([7, 8], name="scenario")),
+                lambda: pd.Series([5.0, 6.0, 7.0], index=pd.Index(["e0", "e1", "zz"], name="element")),
+                lambda: pd.DataFrame({"p": [1.0, 2.0, 3.0]}, index=pd.MultiIndex.from_tuples([("e0", 1), ("e1", 1), ("e1", 2)], names=["element", "scenario"])),
+            ])()
+            res = run(lambda: B.broadcast(prm), lambda: Broadcaster(obj.copy(deep=True)).broadcast(copy.deepcopy(prm)),
+                      f"broadcast({type(prm).__name__}{'' if not hasattr(prm, '__len__') else ' of ' + str(len(prm))})")
+            if res:
+                return res
+        return None
+
+    if what.startswith("woehler"):
+        if what == "woehler-series":
+            obj = pd.Series({"k_1": 7.0, "ND": 2e6, "SD": 300.0, "TN": 3.0, "TS": 1.25})
+        else:
+            obj = pd.DataFrame({"k_1": [7.0, 5.0, 3.0], "ND": [2e6, 1e6, 5e5], "SD": [300.0, 250.0, 100.0]}, index=pd.Index([3, 1, 2], name="element"))
+        wc = obj.woehler                                   # the accessor object, kept
+        # (pandas 3 hands an accessor a copy-on-write copy of the Series, so a kept accessor does not follow later changes of
+        #  the ORIGINAL object - pandas' doing; the data the signal itself holds, `to_pandas()`, is changed in place here)
+        obj = wc.to_pandas()
+        for _ in range(case["steps"]):
+            if r.random() < 0.35:
+                col = r.choice(["SD", "ND", "k_1"])
+                if isinstance(obj, pd.Series):
+                    obj[col] = {"SD": r.choice([250.0, 120.0]), "ND": r.choice([1e6, 3e6]), "k_1": r.choice([5.0, 4.0])}[col]
+                else:
+                    base = {"SD": r.choice([250.0, 120.0]), "ND": r.choice([1e6, 3e6]), "k_1": r.choice([5.0, 4.0])}[col]
+                    obj[col] = [base * (1.0 + 0.1 * i) for i in range(len(obj))]
+                log.append(f"data[{col!r}] = …")
+                continue
+            op = r.choice(["cycles", "cycles", "load"])
+            n = len(obj) if isinstance(obj, pd.DataFrame) else r.randint(1, 4)
+            vals = [float(r.choice([50.0, 180.0, 320.0, 400.0])) if op == "cycles" else float(r.choice([1e4, 1e6, 3e7])) for _ in range(n)]
+            arg = r.choice([lambda: np.asarray(vals), lambda: list(vals), lambda: vals[0],
+                            lambda: pd.Series(vals, index=pd.Index(range(len(vals)), name="scenario"))])()
+            pf = r.choice([0.5, 0.1])
+            res = run(lambda: getattr(wc, op)(arg, pf), lambda: getattr(WoehlerCurve(obj.copy(deep=True)), op)(copy.deepcopy(arg), pf),
+                      f"woehler.{op}({type(arg).__name__}, {pf})")
+            if res:
+                return res
+        return None
+
+    if what == "meanstress-collective":
+        obj = pd.DataFrame({"range": [100.0, 200.0, 300.0, 150.0], "mean": [50.0, -20.0, 100.0, 0.0]},
+                           index=pd.MultiIndex.from_tuples([(1, 0), (1, 1), (2, 0), (3, 0)], names=["element", "cycle_number"]))
+        acc = obj.meanstress_transform                      # the accessor object, kept
+        obj = acc.to_pandas()                               # (the data the accessor holds, see above)
+        for _ in range(case["steps"]):
+            if r.random() < 0.35:
+                col = r.choice(["range", "mean"])
+                obj[col] = [float(r.choice([80.0, 120.0, 240.0, -40.0]) if col == "mean" else r.choice([80.0, 120.0, 240.0])) for _ in range(len(obj))]
+                log.append(f"cycles[{col!r}] = …")
+                continue
+            haigh = r.choice([lambda: pd.Series({"M": 0.3, "M2": 0.1}),
+                              lambda: pd.DataFrame({"M": [0.5, 0.3, 0.1], "M2": [0.2, 0.1, 0.03]}, index=pd.Index([3, 1, 2], name="element"))])()
+            R = r.choice([-1.0, 0.0])
+            res = run(lambda: acc.fkm_goodman(haigh, R).to_pandas(),
+                      lambda: MeanstressTransformCollective(obj.copy(deep=True)).fkm_goodman(copy.deepcopy(haigh), R).to_pandas(),
+                      f"meanstress_transform.fkm_goodman({type(haigh).__name__}, {R})")
+            if res:
+                return res
+        return None
+
+    # a kept HaighDiagram against different collectives; its data changed in place
+    obj = pd.DataFrame({"M": [0.5, 0.3, 0.1], "M2": [0.2, 0.1, 0.03]}, index=pd.Index([3, 1, 2], name="element"))
+    src = HaighDiagram.fkm_goodman(obj.copy()).to_pandas()
+    hd = HaighDiagram(src)
+    for _ in range(case["steps"]):
+        if r.random() < 0.3:
+            src.iloc[r.choice([1, 2, 4, 5])] = r.choice([0.15, 0.25, 0.4])
+            log.append("diagram.iloc[i] = …")
+            continue
+        k = r.randint(1, 3)
+        cyc = pd.DataFrame({"range": [float(r.choice([100.0, 200.0, 300.0])) for _ in range(k)], "mean": [float(r.choice([50.0, -20.0, 100.0])) for _ in range(k)]},
+                           index=r.choice([lambda: pd.Index(range(k), name="cycle_number"),
+                                           lambda: pd.MultiIndex.from_tuples([(r.choice([1, 2, 3]), c) for c in range(k)], names=["element", "cycle_number"])])())
+        R = r.choice([-1.0, 0.0])
+        res = run(lambda: hd.transform(cyc, R), lambda: HaighDiagram(src.copy(deep=True)).transform(cyc.copy(deep=True), R),
+                  f"HaighDiagram.transform({k} cycles on {list(cyc.index.names)}, {R})")
+        if res:
+            return res
+    return None
+
+
 def perf_oracle(case, stats):
     """Performance guard (one case per run): a cross-join broadcast of n rows against m parameter rows must not take longer
     than `bound` x a plain pandas cross join of the same size, measured in the same run.  The reference is measured before and
@@ -2077,7 +2271,7 @@ def _woehler_oracle(case):
     return None
 
 
-CONSUMER_KINDS = ("woehler", "haigh", "haigh-five", "haigh-transform", "collective-raise", "matrix", "perf", "haigh-multikey")
+CONSUMER_KINDS = ("woehler", "haigh", "haigh-five", "haigh-transform", "collective-raise", "matrix", "perf", "haigh-multikey", "kept")
 
 
 # ------------------------------------------------------------------ the property module
@@ -2255,6 +2449,10 @@ class C13(Prop):
                         case["outside"] = True
                     yield case
         yield {"kind": "perf", "n": 100000, "m": 100, "bound": 4.0}      # performance guard, one case per run
+        # ONE Broadcaster / signal / accessor object kept across calls, its data changed in place in between
+        for i, w_ in enumerate(KEPT_WHAT):
+            for j in range(4):
+                yield {"kind": "kept", "what": w_, "steps": 6 + j, "seed": 7000 + 10 * i + j}
         # mean stress transformation against diagrams per key over >= 2 levels that the cycles carry in another order
         j = 0
         for diagram in ("goodman", "five"):
@@ -2367,6 +2565,8 @@ class C13(Prop):
                 yield matrix_case(rng)
             elif u < 0.996:
                 yield multikey_case(rng)
+            elif u < 0.998:
+                yield kept_case(rng)
             else:
                 yield {"kind": "haigh-transform", "n_e": rng.randint(1, 4), "n_c": rng.randint(1, 4), "seed": rng.randrange(1 << 30),
                        "cycles": rng.choice(["disjoint", "per-element"]), "R_goal": rng.choice([-1.0, 0.0, 0.5, -3.0])}
@@ -2474,6 +2674,10 @@ class C13(Prop):
             return res
         if case.get("kind") == "perf":
             return perf_oracle(case, self.stats)
+        if case.get("kind") == "kept":
+            k = "kept-" + case["what"]
+            self.stats["consumer_cases"][k] = self.stats["consumer_cases"].get(k, 0) + 1
+            return kept_oracle(case)
         if case.get("kind") == "haigh-multikey":
             k = f"haigh-multikey-{case['diagram']}-{case['via']}-{case['n_shared']}-{case['ids']}"
             self.stats["consumer_cases"][k] = self.stats["consumer_cases"].get(k, 0) + 1
